@@ -111,13 +111,20 @@ def compare_posterior(c, site, genos, probs, sm, to_bag, n):
 
 
 def check_incongruence(c, site, trace, sm, thetas, n_chain):
-    for th, allowed in zip(thetas, sm["inc"]):
+    """sm["inc"][q]: the flags the functional admits at thetas[q].  sm["incD8"][q] (haplotype traces): the flags under the
+    reading of the open finding D8 (bound = size of the first compared chain's support instead of the ploidy) - never
+    admitted, it only names the mismatch: a flag that reading does not produce either is a different failure
+    (feature suffix -notD8), so that it cannot hide behind the listed finding."""
+    d8 = sm.get("incD8") if site.startswith("GenotypeMultiTrace.") else None
+    for qi, (th, allowed) in enumerate(zip(thetas, sm["inc"])):
         if not theta_safe(th, n_chain):
             continue
         v = trace.replicate_incongruence(th[0] / th[1])
         feature = None
         if int(v) not in allowed:
             feature = "flag%d-model%s" % (int(v), "".join(str(a) for a in sorted(allowed)))
+            if d8 is not None and int(v) not in d8[qi]:
+                feature += "-notD8"
         c.check(site, int(v) in allowed, {"theta": th, "flag": int(v)}, {"allowed": sorted(allowed)}, feature)
 
 
